@@ -1409,3 +1409,15 @@ V("rf-c10-chain-filter-mask-rows", "C10", "fire", UT, _C10_CF1, "    I = list(I)
   more=[(UT, _C10_CF2, "        keep[k] = (me[I, :] == A[I, :]).all()\n    return MEC[keep]\n")], rule="COLUMNS.chain-filter", what="mask form comparing rows (children) instead of columns (parents)")
 V("rf-c10-chain-filter-mask-negated", "C10", "fire", UT, _C10_CF1, "    I = list(I)\n    keep = np.zeros(len(MEC), dtype=bool)\n    for k, me in enumerate(MEC):\n",
   more=[(UT, _C10_CF2, "        keep[k] = (me[:, I] == A[:, I]).all()\n    return MEC[~keep]\n")], rule="COLUMNS.chain-filter", what="mask form returning the complement")
+
+# ------------------------------------------------------------------------------- C17, zip(folds, ratios) (refactor round 2; two agents wrote it independently)
+_C17_D = "    folds = dict((i, []) for i in range(n_folds))\n"
+_C17_R = "    return list(folds.values())\n"
+_C17_A = "            folds[i].append(fold_sample)\n"
+_C17_H = "        for i, ratio in enumerate(ratios):\n"
+V("rf-c17-zip-folds", "C17", "silent", UT, _C17_H, "        for i, (fold, ratio) in enumerate(zip(folds, ratios)):\n",
+  more=[(UT, _C17_D, "    folds = [[] for _ in range(n_folds)]\n"), (UT, _C17_A, "            fold.append(fold_sample)\n"), (UT, _C17_R, "    return folds\n")], what="list of folds zipped with the ratios")
+V("rf-c17-zip-folds-reversed", "C17", "fire", UT, _C17_H, "        for i, (fold, ratio) in enumerate(zip(folds[::-1], ratios)):\n",
+  more=[(UT, _C17_D, "    folds = [[] for _ in range(n_folds)]\n"), (UT, _C17_A, "            fold.append(fold_sample)\n"), (UT, _C17_R, "    return folds\n")], rule="FLOW.destination", what="folds paired with the ratios in reverse")
+V("rf-c17-zip-folds-shared", "C17", "fire", UT, _C17_H, "        for i, (fold, ratio) in enumerate(zip(folds, ratios)):\n",
+  more=[(UT, _C17_D, "    folds = [[]] * n_folds\n"), (UT, _C17_A, "            fold.append(fold_sample)\n"), (UT, _C17_R, "    return folds\n")], rule="FLOW.destination", what="one list shared by all folds")
